@@ -62,7 +62,7 @@ impl Check for C09 {
         "C09"
     }
     fn ncases(&self, tier: Tier) -> u64 {
-        tier.sz(10000, 120000)
+        tier.sz(40000, 600000)
     }
     fn rule(&self) -> &'static str {
         "one generated lex specification per case (1-9 rules from a regex AST generator incl. multi-byte literals and classes, keyword-vs-identifier overlaps in both orders, skip rules, 0-3 inclusive/exclusive start states with push/pop/replace operations, random boolean flags given via %grmtools header or builder) x 30/60 inputs assembled from samples of the rules' own regexes plus noise; the real lexeme/error sequence is compared with a reference lexer (independently compiled \\A(?:re) per rule from the AST's canonical rendering; longest non-empty match, earliest rule on ties; plain Vec state stack) and checked for generic invariants (non-empty, increasing, non-overlapping, single trailing error); set_rule_ids(_spanned) results compared with independently computed set differences and the re-lexed ids. Non-trivial = input on which a tie or a state-stack operation occurred; distinct by (spec, input)."
@@ -74,7 +74,7 @@ impl Check for C09 {
         ]
     }
     fn floor(&self, tier: Tier) -> u64 {
-        tier.sz(15000, 150000)
+        tier.sz(30000, 300000)
     }
     fn required_counters(&self, _t: Tier) -> Vec<&'static str> {
         vec!["inputs_compared", "ties", "competing_lengths", "pushes", "pops", "replaces", "lex_errors_compared", "id_syncs_checked", "skipped_matches"]
